@@ -159,7 +159,12 @@ def main(run):
                 stats["unsorted"] += 1
                 desc = dict(kind="unsorted-" + kind, family=fname, order=order, q=list(map(float, q)), errors=errs, exact=list(map(float, ex)))
                 # geometric grid with ratio r: h/q = ln(1.6 qmax/0.5 qmin)/n; first order in 1/n
-                if not (errs[-1] <= 2e-3 and errs[-1] <= 0.5 * errs[0] + 1e-9):
+                # (converging means: already small, or still falling at the first-order rate between the two finest grids -
+                # where the exact value is close to zero the RELATIVE error is large on every grid: seeds 11 and 17 gave
+                # 0.64, 0.063, 0.0058 for a correct scheme, DESIGN 8.4; an error that stays where it was is still reported)
+                # (an error of 1e-4 relative is an order of magnitude inside the first-order promise of a 4800-point grid; at
+                # that level the three errors are not ordered - seed 11: 8.9e-6, 1.7e-5, 5.1e-6)
+                if not (errs[-1] <= 1e-4 or ((errs[-1] <= 2e-3 or errs[-1] <= 0.25 * errs[1]) and errs[-1] <= 0.5 * max(errs[0], errs[1]) + 1e-9)):
                     run.add(Finding("C04:unsorted:%s:%s" % (kind, fname), "%s smearing of %s with the data stored %s: relative errors %s on grids of 300/1200/4800 points do not converge to the documented integral" % (
                         kind, fname, order, errs), desc))
                 else:
